@@ -1092,7 +1092,12 @@ class MultiTestResult(TestResult):
     def __init__(self, *results):
         # Setup _results first, as the base class __init__ assigns to failfast.
         self._results = list(map(ExtendedToOriginalDecorator, results))
+        # That assignment is dispatched to every wrapped result: do not let it
+        # clear a failfast that was configured on them before wrapping.
+        failfasts = [result.failfast for result in self._results]
         super().__init__()
+        for result, failfast in zip(self._results, failfasts):
+            result.failfast = failfast
 
     def __repr__(self):
         return "<{} ({})>".format(
@@ -1151,7 +1156,12 @@ class MultiTestResult(TestResult):
         return self._dispatch("addUnexpectedSuccess", test, details=details)
 
     def startTestRun(self):
+        # The base class resets and re-assigns failfast, which is dispatched to
+        # every wrapped result: keep each result's own setting.
+        failfasts = [result.failfast for result in self._results]
         super().startTestRun()
+        for result, failfast in zip(self._results, failfasts):
+            result.failfast = failfast
         return self._dispatch("startTestRun")
 
     def stopTestRun(self):
